@@ -45,8 +45,9 @@ def r1(ctx: Ctx) -> None:
             cases.append(Case(conds, (lambda w: ("raise",)), p.describe()))
     atoms = {"S.price", "B.price", "len(self.sell_order_book)", "len(self.buy_order_book)"}
     worlds: List[Dict[str, Any]] = []
-    prices = [{"B.price": 10, "S.price": None}, {"B.price": None, "S.price": 10}]
+    prices = [{"B.price": 10, "S.price": None}, {"B.price": None, "S.price": 10}, {"B.price": 0, "S.price": None}, {"B.price": None, "S.price": 0}]
     prices += [{"B.price": 10 + w["a"], "S.price": 10 + w["b"]} for w in weak_orders(["a", "b"])]
+    prices += [{"B.price": w["a"], "S.price": w["b"]} for w in weak_orders(["a", "b"])]  # 0 is a legal limit price
     for pw in prices:
         d = dict(pw)
         d.update({"len(self.sell_order_book)": 1, "len(self.buy_order_book)": 1})
